@@ -56,10 +56,22 @@ func TestPropRoundTrip(t *testing.T) {
 			cl = append(cl, subjectClasses(s)...)
 		}
 		stats.Case(fmt.Sprintf("rt/%d/%d/%s/%s", f, comp, indent, r), !isZeroValue(v), cl...)
-		if k := "roundtrip_" + fmtName(f); len(r) > 40 && len(r) < 600 && stats.WantSample(k) {
-			stats.Sample(k, map[string]any{"format": fmtName(f), "compression": compName(comp), "indent": indent, "value": r})
+		if !isZeroValue(v) && len(r) < 600 && sampleBudget("roundtrip", 2) {
+			stats.Sample("roundtrip", map[string]any{"format": fmtName(f), "compression": compName(comp), "indent": indent, "value": r})
 		}
 	})
+}
+
+// sampleBudget limits the samples of one kind per process so that every kind
+// of case shows up in the evidence (the collector keeps 6 per process).
+var sampleCount = map[string]int{}
+
+func sampleBudget(kind string, n int) bool {
+	if sampleCount[kind] >= n || !stats.WantSample(kind) {
+		return false
+	}
+	sampleCount[kind]++
+	return true
 }
 
 func subjectClasses(s *Subject) []string {
@@ -127,8 +139,8 @@ func TestPropHTTPResponse(t *testing.T) {
 			cl = append(cl, "response_refused")
 		}
 		stats.Case("resp/"+accept+"/"+render(v), info.elements >= 2 || info.params, cl...)
-		if k := "accept_" + info.firstKind; info.elements >= 2 && stats.WantSample(k) {
-			stats.Sample(k, map[string]any{"accept": accept, "names": info.named, "wildcard": info.wildcard, "answered_in": fmtName(chosen), "refused": !dumped})
+		if info.elements >= 2 && info.params && sampleBudget("accept", 1) {
+			stats.Sample("accept", map[string]any{"accept": accept, "names": info.named, "wildcard": info.wildcard, "answered_in": fmtName(chosen), "refused": !dumped})
 		}
 	})
 }
@@ -170,7 +182,11 @@ func TestPropHTTPRequest(t *testing.T) {
 			v, kind = genSubject(t, domHTTP), "subject"
 		}
 		dumped := checkRequest(t, f, v)
-		cl := []string{"request_" + fmtName(f), "request_value_" + kind}
+		fclass := fmtName(f)
+		if !isSerial(f) && f != dsd.AUTO && f != dsd.GZIP && f != dsd.LIST {
+			fclass = "unassigned_id"
+		}
+		cl := []string{"request_" + fclass, "request_value_" + kind}
 		if !dumped {
 			cl = append(cl, "request_refused")
 		}
@@ -196,8 +212,8 @@ func TestPropHTTPRequest(t *testing.T) {
 			}
 		}
 		stats.Case(fmt.Sprintf("req/%d/%s", f, render(v)), dumped && !isZeroValue(v), cl...)
-		if k := "request_" + fmtName(f); dumped && stats.WantSample(k) {
-			stats.Sample(k, map[string]any{"format": fmtName(f), "value": render(v)})
+		if dumped && decorated && !isZeroValue(v) && len(render(v)) < 600 && sampleBudget("request", 1) {
+			stats.Sample("request", map[string]any{"format": fmtName(f), "value": render(v), "note": "request and response round trip; payload also loaded under a decorated Content-Type"})
 		}
 	})
 }
@@ -322,8 +338,8 @@ func TestPropLoadTotal(t *testing.T) {
 			cl = append(cl, "total_returned_error")
 		}
 		stats.Case("total/"+tname+"/"+string(data), pastID, cl...)
-		if k := "totality_" + cls; len(data) < 80 && stats.WantSample(k) {
-			stats.Sample(k, map[string]any{"blob_hex": hex.EncodeToString(data), "target": tname, "loaded": loaded})
+		if pastID && len(data) > 4 && len(data) < 80 && sampleBudget("totality", 2) {
+			stats.Sample("totality", map[string]any{"class": cls, "blob_hex": hex.EncodeToString(data), "target": tname, "loaded_a_value": loaded})
 		}
 	})
 }
